@@ -72,30 +72,22 @@ func runC22(c *core.Ctx) {
 					}
 				}
 			}
-			found := false
-			// a comparison with nil anywhere in the function (branch condition or returned boolean)
-			f.InspectOwn(func(nd ast.Node) bool {
-				be, ok := nd.(*ast.BinaryExpr)
-				if !ok || (be.Op != token.EQL && be.Op != token.NEQ) {
+			// a comparison of the read value with nil (branch condition or returned boolean), in this function
+			// or in a module function that receives the value as an argument
+			f := f
+			isVal := func(e ast.Expr) bool {
+				e = ast.Unparen(e)
+				if v := varOf(f, e); v != nil && (vals[v] || vals[canonVar(f, v)]) {
 					return true
-				}
-				l, r := ast.Unparen(be.X), ast.Unparen(be.Y)
-				if core.IsNil(f.Info(), l) {
-					l, r = r, l
-				}
-				if !core.IsNil(f.Info(), r) {
-					return true
-				}
-				if vals[varOf(f, l)] {
-					found = true
 				}
 				for _, rd := range reads {
-					if l == rd {
-						found = true
+					if e == rd {
+						return true
 					}
 				}
-				return true
-			})
+				return false
+			}
+			found := c22NilTested(f, isVal, 2)
 			c.Check(found, short(f.Name), "T16c tombstone agreement", f.Pos(), "the overlay value read here is compared with nil (nil = deleted)", "an overlay value is read without a nil (tombstone) test: a deleted key would be treated as present")
 		}
 		c.ExpectAtLeast("functions reading overlay values", n, 5)
@@ -104,14 +96,8 @@ func runC22(c *core.Ctx) {
 			f := c.Fn(name)
 			isNilV := func(want bool) func(core.Fact) bool {
 				return func(ft core.Fact) bool {
-					cm, ok := core.NormCmp(ft)
-					if !ok || cm.R == nil || !core.IsNil(f.Info(), cm.R) {
-						return false
-					}
-					if fieldNameOf(f, cm.L) != "kvdb/flushable.kv.v" {
-						return false
-					}
-					return (cm.Op == token.EQL) == want
+					x, isNil, ok := c22NilCmp(f.Info(), ft)
+					return ok && fieldNameOf(f, x) == "kvdb/flushable.kv.v" && isNil == want
 				}
 			}
 			var dels, puts []*core.CallSite
@@ -120,11 +106,16 @@ func runC22(c *core.Ctx) {
 			} else {
 				dels, puts = f.CallsTo(kvDelete), f.CallsTo(kvPut)
 			}
-			ok := len(dels) == 1 && len(puts) == 1
-			if ok {
-				a, _ := f.GuardedBy(dels[0].Pt, isNilV(true))
-				b, _ := f.GuardedBy(puts[0].Pt, isNilV(false))
-				ok = a && b
+			ok := len(dels) >= 1 && len(puts) >= 1
+			for _, d := range dels {
+				if g, _ := f.GuardedBy(d.Pt, isNilV(true)); !g {
+					ok = false
+				}
+			}
+			for _, pc := range puts {
+				if g, _ := f.GuardedBy(pc.Pt, isNilV(false)); !g {
+					ok = false
+				}
 			}
 			c.Check(ok, short(name)+"|nil value = delete", "T16c tombstone agreement", f.Pos(), "delete on the v == nil edge, put on the v != nil edge", "batch entries are not split into delete (nil value) and put (non-nil value)")
 		}
@@ -233,55 +224,71 @@ func runC22(c *core.Ctx) {
 
 	c.Clause("C22.flush", func() {
 		f := c.Fn(flT + ".flush")
+		// the loop driven by Next() of an iterator over the overlay tree (the iterator may be made in the
+		// loop's init clause or before the loop)
+		isNext := func(e ast.Expr) *ast.CallExpr {
+			if e == nil {
+				return nil
+			}
+			return isCallTo(f, e, rbtP+"Iterator.Next")
+		}
 		var loop *ast.ForStmt
 		f.InspectOwn(func(n ast.Node) bool {
-			if fs, ok := n.(*ast.ForStmt); ok && loop == nil {
+			if fs, ok := n.(*ast.ForStmt); ok && (loop == nil || (isNext(loop.Cond) == nil && isNext(fs.Cond) != nil)) {
 				loop = fs
 			}
 			return true
 		})
 		c.Need(loop != nil, "flush iterates the overlay with a for loop")
-		// iterates modified.Iterator() with it.Next()
 		okIt := false
-		if as, ok := loop.Init.(*ast.AssignStmt); ok && len(as.Rhs) == 1 {
-			if call := isCallTo(f, as.Rhs[0], rbtP+"Tree.Iterator"); call != nil {
-				if sel, ok := call.Fun.(*ast.SelectorExpr); ok && fieldNameOf(f, sel.X) == modF && isCallTo(f, loop.Cond, rbtP+"Iterator.Next") != nil {
-					okIt = true
+		if next := isNext(loop.Cond); next != nil {
+			if sel, ok := ast.Unparen(next.Fun).(*ast.SelectorExpr); ok {
+				if mk := isCallTo(f, sel.X, rbtP+"Tree.Iterator"); mk != nil {
+					if msel, ok := ast.Unparen(mk.Fun).(*ast.SelectorExpr); ok && fieldNameOf(f, msel.X) == modF {
+						okIt = true
+					}
 				}
 			}
 		}
-		c.Check(okIt, "flush walks the whole overlay", "loop shape", loop.Pos(), "for it := modified.Iterator(); it.Next(); {...}", "flush does not iterate modified.Iterator() with Next()")
+		c.Check(okIt, "flush walks the whole overlay", "loop shape", loop.Pos(), "the loop advances an iterator of the overlay tree with Next() until it is exhausted", "flush does not iterate modified.Iterator() with Next()")
 		done, complete := loopDone(f, loop)
 		c.Check(complete, "flush loop has no early exit except returns", "T2 (loop)", loop.Pos(), "the loop is left only when the iterator is exhausted (or by returning an error)", "the overlay loop can be left early by break/goto")
-		// each iteration puts or deletes into the batch, split on the tombstone
-		bput, bdel := f.CallsTo(kvPut), f.CallsTo(kvDelete)
-		c.Need(len(bput) == 1 && len(bdel) == 1, "one batch.Put and one batch.Delete in flush")
-		head, _ := f.LoopOf(loop)
-		bodyEntry := core.Point{B: head.Succs[0], I: 0}
-		_, skip := core.PathQuery{F: f, From: bodyEntry, Target: func(pt core.Point) bool { return pt.B == head }, Avoid: core.PointSet(bput[0].Pt, bdel[0].Pt)}.Find()
-		c.Check(!skip, "every overlay entry reaches the batch", "T2 (loop)", loop.Pos(), "no path through the body reaches the next entry without batch.Put or batch.Delete", "an overlay entry can be skipped")
-		isTomb := func(want bool) func(core.Fact) bool {
-			return func(ft core.Fact) bool {
-				cm, ok := core.NormCmp(ft)
-				if !ok || cm.R == nil || !core.IsNil(f.Info(), cm.R) {
-					return false
-				}
-				return isCallTo(f, cm.L, rbtP+"Iterator.Value") != nil && (cm.Op == token.EQL) == want
+		// each iteration puts or deletes into the batch (directly or through a helper that always does),
+		// split on the tombstone
+		stages := c22Stages(f)
+		nPut, nDel := 0, 0
+		for _, s := range stages {
+			if s.IsDel {
+				nDel++
+			} else {
+				nPut++
 			}
 		}
-		a, _ := f.GuardedBy(bdel[0].Pt, isTomb(true))
-		b, _ := f.GuardedBy(bput[0].Pt, isTomb(false))
-		c.Check(a && b, "tombstones become deletes, values become puts", "T4 GuardedBy", loop.Pos(), "batch.Delete on Value()==nil, batch.Put otherwise", "flush does not map tombstones to Delete and values to Put")
+		c.Need(nPut >= 1 && nDel >= 1, "flush stages entries with batch.Put and batch.Delete (directly or in a helper called with the entry's value)")
+		isStage := func(cs *core.CallSite) bool { return cs.Name == kvPut || cs.Name == kvDelete }
+		head, _ := f.LoopOf(loop)
+		bodyEntry := core.Point{B: head.Succs[0], I: 0}
+		_, skip := core.PathQuery{F: f, From: bodyEntry, Target: func(pt core.Point) bool { return pt.B == head }, Avoid: core.PointSet(f.SitesMust(isStage, 2)...)}.Find()
+		c.Check(!skip, "every overlay entry reaches the batch", "T2 (loop)", loop.Pos(), "no path through the body reaches the next entry without batch.Put or batch.Delete", "an overlay entry can be skipped")
+		okSplit, whySplit := true, ""
+		for _, s := range stages {
+			if g, wit := s.Host.GuardedBy(s.Site.Pt, s.tombFact(s.IsDel)); !g {
+				okSplit = false
+				whySplit = " (" + short(s.Host.Name) + ": " + s.Host.DescribePath(wit) + ")"
+			}
+		}
+		c.Check(okSplit, "tombstones become deletes, values become puts", "T4 GuardedBy", loop.Pos(), "batch.Delete only on the value == nil edge, batch.Put only on the value != nil edge", "flush does not map tombstones to Delete and values to Put"+whySplit)
 		// clearing only after the complete loop; final write after clearing
 		clr := f.CallsTo(rbtP + "Tree.Clear")
 		c.Need(len(clr) == 1, "flush clears the overlay once")
 		ok1, _ := mustPassBlockBefore(f, done, clr[0].Pt)
 		c.Check(ok1, "overlay cleared only after the complete loop", "T2 Dominates (loop exit)", clr[0].Pos(), "modified.Clear() is dominated by the loop's exit", "the overlay can be cleared before every entry reached the batch")
 		writes := f.CallsTo("kvdb.Batch.Write")
+		// (a helper that always writes the batch counts as the write)
 		var final []core.Point
-		for _, w := range writes {
-			if enclosingLoop(f, w.Pos()) == nil {
-				final = append(final, w.Pt)
+		for _, pt := range f.SitesMust(func(cs *core.CallSite) bool { return cs.Name == "kvdb.Batch.Write" && !cs.InDefer }, 2) {
+			if enclosingLoop(f, posOf(pt)) == nil {
+				final = append(final, pt)
 			}
 		}
 		_, noWrite := core.PathQuery{F: f, From: blockEntry(done), Avoid: core.PointSet(final...), TargetExit: true}.Find()
